@@ -937,6 +937,8 @@ class Interp:
                 return self.dom.cnot(v)
             return not t
         if isinstance(node.op, ast.Invert):
+            if getattr(self, "invert_scalar_violation", None) is not None and (self.is_mask(v) or isinstance(v, bool)):
+                raise self.invert_scalar_violation(node, func)
             if self.dom.is_value(v):
                 return self._mask(self.dom.cnot(v))
         raise AnalysisError("unsupported unary operator")
@@ -1591,6 +1593,15 @@ class Interp:
             return r
         if base in ("minimum", "maximum"):
             return self.binary(base, args[0], args[1], ln)
+        if base == "clip" and len(args) == 3 and not kwargs:
+            # numpy's definition: minimum(a_max, maximum(a, a_min)) -- with a_min > a_max the result is a_max
+            lo, hi = args[1], args[2]
+            r = args[0]
+            if lo is not None:
+                r = self.binary("maximum", r, lo, ln)
+            if hi is not None:
+                r = self.binary("minimum", r, hi, ln)
+            return r
         if base in ("add", "subtract", "multiply", "divide", "true_divide") and len(args) == 2:
             op = {"add": ast.Add(), "subtract": ast.Sub(), "multiply": ast.Mult(), "divide": ast.Div(), "true_divide": ast.Div()}[base]
             return self.binop(op, args[0], args[1], ln)
